@@ -159,6 +159,10 @@ def gen_input(rng, kind_hint=None):
         return 'submodule', [l.encode() for l in lines], roles, True
     if k == 6:
         d = gen.gen_diff(rng, fmt=rng.choice(['plain', 'plainr']), maxlen=50)
+        for s_ in d.sections:
+            for h in s_.hunks:
+                # the documented ambiguity of plain diff -u: '+++ ' content looks like a header
+                h.lines = [(kk, t if not (kk == '+' and t.startswith('++ ')) else 'pp' + t[2:]) for kk, t in h.lines]
         rl = d.role_lines()
         return 'plain-diff', [l.encode() for _, l in rl], [r for r, _ in rl], True
     d = gen.gen_diff(rng, kinds=['binary', 'mode_only', 'renamed', 'copied', 'empty_added', 'binary_added', 'deleted', 'added'])
